@@ -661,13 +661,19 @@ void World::deliver(const std::tuple<int,int,int>& key) {
     q.pop_front();
     // was some message that was sent earlier (globally) still in flight? => cross-source reordering exercised
     for (auto& kv : chan_) if (!kv.second.empty() && kv.second.front().gseq < m.gseq) { st_.delivered_out_of_global_order++; break; }
+    if (m.lazy_src) {   // the transport reads the send buffer now (plain memcpy from the sender's memory)
+        copy_in(m.bytes, m.lazy_src, m.lazy_len);
+        m.lazy_src = nullptr;
+        *m.read_done = true;
+        poke(m.sender_world);
+    }
     st_.deliveries++;
     if (o_.policy != POL_DES) now_ += 0.5;
     add_event(-1, EV_DELIVER, m.ctx, m.src, m.dst, m.tag);
     arrive_at(std::move(m));
 }
 
-void World::send(int ctx, int dst, int tag, const void* data, size_t nbytes, bool blocking, ReqPtr* out_req) {
+void World::send(int ctx, int dst, int tag, const void* data, size_t nbytes, bool blocking, ReqPtr* out_req, bool buffer_owned_by_caller) {
     yield_point(EV_SEND, ctx, dst, tag, (int)nbytes);
     int n = ctx_size(ctx);
     int me = ctx_rank(ctx);
@@ -676,17 +682,24 @@ void World::send(int ctx, int dst, int tag, const void* data, size_t nbytes, boo
     if (tag < 0) throw MpiError("MPI_ERR_TAG: invalid tag " + std::to_string(tag));
     Msg m;
     m.ctx = ctx; m.src = me; m.dst = dst; m.tag = tag;
-    copy_in(m.bytes, data, nbytes);
+    // A non-blocking send may read its buffer at any time until the request completes. With the seeded "lazy" liberty the bytes
+    // are fetched from the caller's address only when the message is transferred, so a buffer that died or changed in between
+    // (a by-value parameter, a temporary) delivers whatever is there then - as a transport without eager copy would.
+    bool lazy = !blocking && out_req && buffer_owned_by_caller && nbytes > 0 && o_.lazy_isend_pct > 0 && choose(CK_MISC, 100) >= 100 - o_.lazy_isend_pct;
+    if (lazy) { m.lazy_src = (const char*)data; m.lazy_len = nbytes; m.read_done = std::make_shared<bool>(false); st_.lazy_isends++; }
+    else copy_in(m.bytes, data, nbytes);
+    m.sender_world = g_rank;
     m.gseq = ++gseq_;
     m.matched = std::make_shared<bool>(false);
     std::shared_ptr<bool> matched = m.matched;
+    std::shared_ptr<bool> read_done = m.read_done;
     bool rdv = false;
     if (o_.rdv_pct > 0) rdv = choose(CK_RDV, 100) >= 100 - o_.rdv_pct;
     st_.sends++;
     if (rdv) st_.sends_rdv++;
     if (dst == me) st_.self_sends++;
     progress();
-    if (!o_.latency) {
+    if (!o_.latency && !lazy) {
         arrive_at(std::move(m));
     } else {
         std::tuple<int,int,int> key(ctx, me, dst);
@@ -707,7 +720,7 @@ void World::send(int ctx, int dst, int tag, const void* data, size_t nbytes, boo
     } else if (out_req) {
         ReqPtr r = std::make_shared<ReqState>();
         r->kind = ReqState::SEND; r->ctx = ctx; r->owner = g_rank; r->id = ++reqid_;
-        r->send_matched = rdv ? matched : std::make_shared<bool>(true);
+        r->send_matched = rdv ? matched : (lazy ? read_done : std::make_shared<bool>(true));
         r->st.source = me; r->st.tag = tag;
         *out_req = r;
     }
